@@ -970,6 +970,9 @@ func (env *Env) equal(a, b Val, st *State) string {
 		case strings.HasPrefix(s, "Mp_"):
 			c.trust("a nil map and an empty map are not distinguished")
 			return eq(app("mc_"+s, a.T), "0")
+		case strings.HasPrefix(s, "St_"):
+			// the address of a struct variable (represented by the struct value) is never nil
+			return "false"
 		default:
 			return eq(a.T, "nil_"+s)
 		}
@@ -1126,10 +1129,17 @@ func (env *Env) heapTermK(st *State, key, ksort, sort string) string {
 	if h, ok := st.heap[key]; ok {
 		return h
 	}
-	name := "|H:" + key + "|"
-	env.c.decls.declConst(name, fmt.Sprintf("(Array %s %s)", ksort, sort))
 	env.c.heapKeySorts[key] = ksort
 	env.c.heapSorts[key] = sort
+	if _, f, ok := cutLast(key, "."); ok && (st.pendingHavoc[strings.TrimPrefix(f, "$")] || st.pendingHavoc["*"]) {
+		// first read of a field that a loop on the way here may have written: its value
+		// is unrelated to the value at function entry
+		name := env.c.fresh("H'"+key, fmt.Sprintf("(Array %s %s)", ksort, sort))
+		st.heap[key] = name
+		return name
+	}
+	name := "|H:" + key + "|"
+	env.c.decls.declConst(name, fmt.Sprintf("(Array %s %s)", ksort, sort))
 	st.heap[key] = name
 	// the entry heap does not point to objects allocated by this function
 	if k := env.c.ptrField[key]; k != 0 {
@@ -1173,7 +1183,7 @@ func (env *Env) evalSelector(x *ast.SelectorExpr, st *State) Val {
 					return Val{T: name, Ty: ob.Type()}
 				case *types.Func:
 					fi := c.e.lookupFunc(ob)
-					return Val{T: c.fresh("fn_"+ob.Name(), env.sortOf(ob.Type())), Ty: ob.Type(), Fn: &Closure{Func: fi, Env: env}}
+					return Val{T: c.fresh("fn_"+ob.Name(), env.sortOf(ob.Type())), Ty: ob.Type(), Fn: &Closure{Func: fi, Obj: ob, Env: env}}
 				case *types.TypeName:
 					return Val{Ty: ob.Type(), Bound: true}
 				}
@@ -1536,6 +1546,21 @@ func (c *Ctx) freshFacts(env *Env, st *State, ref string) {
 		case 2:
 			s := env.sortOf(v.Ty)
 			st.assume(fmt.Sprintf("(forall ((j Int)) (! (not (= (select (arr_%s %s) j) %s)) :pattern ((select (arr_%s %s) j))))", s, v.T, ref, s, v.T))
+		case 4:
+			// local map whose values are slices of pointers
+			s := env.sortOf(v.Ty)
+			if mt, ok := types.Unalias(env.subst(v.Ty)).Underlying().(*types.Map); ok && strings.HasPrefix(s, "Mp_") {
+				ks := env.sortOf(mt.Key())
+				vs := env.sortOf(mt.Elem())
+				st.assume(fmt.Sprintf("(forall ((k %s) (j Int)) (! (not (= (select (arr_%s (select (mv_%s %s) k)) j) %s)) :pattern ((select (arr_%s (select (mv_%s %s) k)) j))))", ks, vs, s, v.T, ref, vs, s, v.T))
+			}
+		case 3:
+			// local map with pointer values: no entry holds the new object
+			s := env.sortOf(v.Ty)
+			if mt, ok := types.Unalias(env.subst(v.Ty)).Underlying().(*types.Map); ok && strings.HasPrefix(s, "Mp_") {
+				ks := env.sortOf(mt.Key())
+				st.assume(fmt.Sprintf("(forall ((k %s)) (! (=> (select (mh_%s %s) k) (not (= (select (mv_%s %s) k) %s))) :pattern ((select (mv_%s %s) k))))", ks, s, v.T, s, v.T, ref, s, v.T))
+			}
 		}
 	}
 }
@@ -1552,6 +1577,15 @@ func ptrKind(env *Env, t types.Type) int {
 	case *types.Slice:
 		if _, ok := types.Unalias(env.subst(u.Elem())).Underlying().(*types.Pointer); ok {
 			return 2
+		}
+	case *types.Map:
+		if _, ok := types.Unalias(env.subst(u.Elem())).Underlying().(*types.Pointer); ok {
+			return 3
+		}
+		if sl, ok := types.Unalias(env.subst(u.Elem())).Underlying().(*types.Slice); ok {
+			if _, ok := types.Unalias(env.subst(sl.Elem())).Underlying().(*types.Pointer); ok {
+				return 4
+			}
 		}
 	}
 	return 0
